@@ -53,6 +53,9 @@ CLAIMED = {
  "C17": ("Signer V/network-id arithmetic, signature value ranges and hash binding on symbolic V/R/S/ids with recovery and rlpHash idealised; the real ApplyMessageEntry (preCheck, buyGas, IntrinsicGas, UseGas, refundGas, GasPool) on the real StateDB with an arbitrary gas-monotone converter step: refusals change nothing, exact charge, refund <= half.",
          "Trusted: gosym, z3; secp256k1 and rlpHash injectivity idealised; one of r,s full length. One open known finding (pre-refund gasUsed).",
          "solver-based symbolic execution of go/ssa (bv / SMT Int)"),
+ "C19": ("Scheduler half: the real trie.Sync (NewSync, Missing, Process, schedule, children, commit, Pending) and priority queue over every small source DAG given by a symbolic child table and every response order / repetition / unsolicited delivery within the bound: children complete before parents, Pending()=0 exactly when every reachable node is stored, refusals change nothing, counters never negative, nothing stored twice.",
+         "Trusted: gosym, z3; decodeNode replaced by a table lookup. NOT covered: that delivered bytes hash to the requested key (keccak in goroutines of triesync.go), state-sync leaf callback, content equality after sync.",
+         "solver-based symbolic execution of go/ssa (bv) with symbolic DAG shape and responses"),
  "C20": ("Inductive step over txSortedMap and txList (real container/heap, sort) from an arbitrary invariant-satisfying list with symbolic nonces/prices/gas: representation invariant and functional specs of Put/Forward/Filter/Cap/Remove/Ready/Flatten/Add.",
          "Trusted: gosym, z3. NOT covered: pool-level pending/queued views, limits, eviction, reorg loop, and every concurrency claim.",
          "solver-based symbolic execution of go/ssa (bv / Int), inductive invariant step"),
